@@ -253,6 +253,10 @@ func runOne(r *driver.Run) {
 	default:
 		n = []int{1, 2, 3, 4, 8, 16, 32, 64}[t.Draw(8)]
 	}
+	if t.Chance(1, 40) {
+		n = 0 // the empty structure: only the derived views can be asked
+		r.Probe("empty-structure")
+	}
 	nops := t.Range(1, 80)
 	// swarm: per-run operation mix
 	w := []int{1 + t.Draw(8), 1 + t.Draw(8), t.Draw(6), t.Draw(6), t.Draw(3), t.Draw(3), t.Draw(3), t.Draw(3)}
@@ -290,6 +294,9 @@ func runOne(r *driver.Run) {
 	}
 	for op := 0; op < nops; op++ {
 		k := t.Weighted(w)
+		if n == 0 {
+			k = 4 + t.Draw(4)
+		}
 		x, y := t.Draw(n), t.Draw(n)
 		if (k == 2 || k == 3) && t.Chance(1, 2) {
 			// aim lookups at the deepest element: that is where compression rewrites parents
